@@ -179,13 +179,10 @@ class Ref(object):
             outs = []
             failed = False
             for i, br in enumerate(sp[1]):
-                if br[0] not in ("seq", "src", "tup"):
-                    br_items, bpath = [br], path + (i,)       # a bare element is wrapped into a Sequence
-                    sub = lambda c, br=br, bpath=bpath: self.node(br, c, bpath + (0,))
-                else:
-                    sub = lambda c, br=br, i=i: self.node(br, c, path + (i,))
+                # a bare element as a branch is wrapped into a Sequence by Split: one level more in the path
+                bpath = path + (i,) if br[0] in ("seq", "src", "tup") else path + (i, 0)
                 try:
-                    outs.append(sub(copy.deepcopy(ctx)))
+                    outs.append(self.node(br, copy.deepcopy(ctx), bpath))
                 except RefFail:
                     if not failed:
                         failed = True
@@ -195,9 +192,7 @@ class Ref(object):
                 raise RefFail()
             if outs:
                 ctx = r_intersect(outs)
-            else:
-                # no branch context to intersect with: the Split "acts as an empty Sequence" (its docstring)
-                pass
+            # else: no branch context to intersect with - the Split "acts as an empty Sequence" (its docstring)
             self.exported[path] = copy.deepcopy(ctx)
             if self._sib:
                 self.sibling.add(path)
@@ -314,7 +309,7 @@ def observe(kind, o):
         return copy.deepcopy(o.context)
     if kind == "ucfs":
         res = list(o.run(iter([(0, {})])))
-        return res[0][1]
+        return copy.deepcopy(res[0][1])
     if kind == "mf":
         res = o((0, {}))
         out = res[1].get("output", {}) if isinstance(res, tuple) else {}
@@ -649,7 +644,7 @@ def compare(spec, ref, world, ob, prefix):
         else:
             fid = name + "/fold-mismatch"
         diffs.append((fid, "%s at %s shows %s, the fold of the SetContext updates that enclose and precede it gives %s" % (
-            name, list(path), short(got), short(exp))))
+            name, list(path), short(got).replace(prefix + os.sep, ""), short(exp).replace(prefix + os.sep, ""))))
     keys = set()
     for k in world.fail_keys:
         keys.update(k.split("."))
@@ -786,6 +781,12 @@ def _check_files(spec, ref, world, objs, prefix, out):
                     want = os.path.join(exp, "f.txt")
                     ok = (len(res) == 1 and res[0][0] == want and os.path.isfile(want)
                           and open(want).read() == "text%s" % (path,))
+                    if ok:
+                        c = res[0][1]
+                        if set(c) != {"output"} or set(c["output"]) - {"changed"} != {"filename", "fileext", "filepath"} \
+                                or c["output"]["filename"] != "f" or c["output"]["filepath"] != want:
+                            out.append(("Write/run-context-gains-other-keys", "Write at %s: the value's context after run is %s; "
+                                        "only output.filename/fileext/filepath(/changed) are documented" % (list(path), short(c))))
                 else:
                     res = list(o.run(iter([("v", {"p": list(path)})])))
                     want = exp
@@ -821,7 +822,7 @@ def _listing(root):
 
 
 # ---- run-time: static context reaches run-time contexts only through UpdateContextFromStatic
-def runnable(sp, top=True, inside=None):
+def runnable(sp, top=True):
     """the tree can be run as a whole (Source only on top, as a Split branch or first in a Source)"""
     kind = sp[0]
     if kind == "seq" or kind == "tup":
@@ -1091,7 +1092,7 @@ def rnd_leaf(rng, alphabet, probes, p_set):
     return copy.deepcopy(rng.choice(probes))
 
 
-def rnd_items(rng, depth, alphabet, probes, p_set, maxlen, in_src=False):
+def rnd_items(rng, depth, alphabet, probes, p_set, maxlen):
     res = []
     for _ in range(rng.randint(0, maxlen)):
         r = rng.random()
@@ -1136,14 +1137,14 @@ def rnd_split(rng, depth, alphabet, probes, p_set, maxlen, bare=True):
     return ["split", brs]
 
 
-def rnd_tree(rng, alphabet, probes, p_set=0.45, maxlen=4, bare=True):
+def rnd_tree(rng, alphabet, probes, p_set=0.45, maxlen=4, bare=True, depth=3):
     r = rng.random()
     if r < 0.55:
-        t = ["seq", rnd_items(rng, 2, alphabet, probes, p_set, maxlen)]
+        t = ["seq", rnd_items(rng, depth - 1, alphabet, probes, p_set, maxlen)]
     elif r < 0.85:
-        t = rnd_src(rng, 2, alphabet, probes, p_set, maxlen)
+        t = rnd_src(rng, depth - 1, alphabet, probes, p_set, maxlen)
     else:
-        t = rnd_split(rng, 3, alphabet, probes, p_set, maxlen, bare)
+        t = rnd_split(rng, depth, alphabet, probes, p_set, maxlen, bare)
     return number_leaves(t)
 
 
@@ -1166,7 +1167,8 @@ def removals(sp):
     kind = sp[0]
     if kind in CONTAINERS:
         for i in range(len(sp[1])):
-            yield [kind, sp[1][:i] + sp[1][i + 1:]]
+            if sp[1][i][0] != "gen":
+                yield [kind, sp[1][:i] + sp[1][i + 1:]]
         for i in range(len(sp[1])):
             for sub in removals(sp[1][i]):
                 yield [kind, sp[1][:i] + [sub] + sp[1][i + 1:]]
@@ -1242,8 +1244,32 @@ def _body(R):
                     continue        # a data element cannot stand before the generator of a Source
                 run_case(R, t, "static")
 
+    # 2b. Splits with two and three branches
+    opts = [[], [["set", "a", "A#"]], [["set", "k", "K"]], [["set", "n.p", "P#"]], [["set", "n.q", "Q"]],
+            [["set", "k", "K"], ["set", "n.q", "Q"]], [["set", "a", "A#"], ["set", "k", "K"]]]
+    if not thorough:
+        opts = opts[:5]
+    pres = [[], [["set", "a", "A#"]], [["set", "n.p", "P#"]]]
+    tops = ["seq", "src"] if thorough else ["seq"]
+    R.scope("Split with 2 and 3 branches: independent copies in, intersection out",
+            "ALL trees Top(pre, Split([b1, b2(, b3)]), ...) with Top in %s, pre in {nothing, SetContext a, SetContext n.p}, each branch one of "
+            "%d SetContext lists over a/k/n.p/n.q (branch i is a tuple, a Sequence or a Source in turn), probe bundle in every gap" % (
+                tops, len(opts)), True)
+    k = 0
+    for top in tops:
+        for pre in pres:
+            for nb in (2, 3):
+                for combo in itertools.product(opts, repeat=nb):
+                    k += 1
+                    brs = []
+                    for i, b in enumerate(combo):
+                        bk = ("tup", "seq", "src")[(i + k) % 3]
+                        brs.append([bk, ([["gen", "g#", 1]] if bk == "src" else []) + copy.deepcopy(b)])
+                    sk = [top, ([["gen", "g#", 1]] if top == "src" else []) + copy.deepcopy(pre) + [["split", brs]]]
+                    run_case(R, with_bundles(sk, PROBES, k), "static")
+
     # 3. random larger trees, richer alphabet
-    n3 = 30000 if thorough else 2500
+    n3 = 50000 if thorough else 3000
     R.scope("random trees, static context",
             "%d random trees of depth <= 3, sequences of 0..4 items (SetContext over %d key/value forms incl. self-referring "
             "formats, dict and falsy values, nested keys, unresolvable keys; all consumers; Sequence/tuple/Source/bare-element "
@@ -1289,6 +1315,27 @@ def _body(R):
         if runnable(t):
             done += 1
             run_case(R, t, "run")
+
+    # 6. one level deeper than the property's quantifier (the statement itself has no depth)
+    n6 = 6000 if thorough else 700
+    alpha6 = A_EXH + [("d", "{{zz}}"), ("b", "B#"), ("a", "{{a}}+")]
+    R.scope("random trees of depth 4 (one level beyond the quantifier), static context",
+            "%d random trees of depth <= 4, sequences of 0..3 items, SetContext over %s (unresolvable keys twice as likely), "
+            "all consumers" % (n6, alpha6), False)
+    for _ in range(n6):
+        t = rnd_tree(rng, alpha6, PROBES, maxlen=3, depth=4)
+        run_case(R, t, "static")
+    R.scope("depth 4: a branch with an unresolvable key next to a branch with a consumer",
+            "ALL trees Sequence(SetContext, Split([B1, B2])) and the same with the branches exchanged: B1 in {(Sequence(SetContext('d','{{zz}}')),), "
+            "Source(gen, Sequence(SetContext('d','{{zz}}'))), (SetContext('d','{{zz}}'),), (Sequence(SetContext('c','{{a}}|{{n.p}}')),)}, "
+            "B2 = (SetContext, probe) for each of the 9 probe elements; outer SetContext a or k", True)
+    for outer in (["set", "a", "A#"], ["set", "n.p", "P#"]):
+        for b1 in (["tup", [["seq", [["set", "d", "{{zz}}"]]]]], ["src", [["gen", "g#", 1], ["seq", [["set", "d", "{{zz}}"]]]]],
+                   ["tup", [["set", "d", "{{zz}}"]]], ["tup", [["seq", [["set", "c", "{{a}}|{{n.p}}"]]]]]):
+            for p in PROBES:
+                b2 = ["tup", [["set", "k", "K"], p]]
+                for brs in ([b1, b2], [b2, b1]):
+                    run_case(R, number_leaves(["seq", [outer, ["split", copy.deepcopy(brs)]]]), "static")
 
 
 if __name__ == "__main__":
